@@ -14,7 +14,8 @@
 (*   role            "Client": the engine connects out (peer = an OpenSSL / plaintext / garbage server)     *)
 (*                   "Server": the engine listens      (peer = an OpenSSL / plaintext / garbage client)     *)
 (*   via             "Transport" (connect() + callbacks, application sends before the announce),            *)
-(*                   "TransportSync" (connectSync), "HttpClient" (https:// URL), "Listener" (role Server)   *)
+(*                   "TransportSync" (connectSync), "HttpClient" (https:// URL), "Listener" (role Server,    *)
+(*                   Transport::addListener), "HttpServer" (role Server, HttpServer::enableTls)             *)
 (*   tlsRequested    the session is requested with TLS (TlsMode::Client / TlsMode::Server / https)          *)
 (*   tlsEnabled      a TLS context is configured (clientTls/serverTls.enabled with the matching mode)       *)
 (*   peerKind        "TLS" | "Plaintext" | "Garbage"                                                        *)
@@ -97,7 +98,17 @@ FamH(x) == \E pk \in {"TLS", "Plaintext", "Garbage"} :
 FamI(x) == \E en \in BOOLEAN :
               x = [SBase EXCEPT !.tlsRequested = FALSE, !.tlsEnabled = en, !.peerKind = "Plaintext"]
 
+\* J: engine = server through HttpServer (enableTls configures and requests TLS together; requireClientCert is the knob)
+HBase == [SBase EXCEPT !.via = "HttpServer"]
+FamJ(x) == \/ \E req \in BOOLEAN, cc \in ClientCerts, cmax \in {12, 13} :
+              \E anchor \in (IF req THEN Anchors ELSE {"None"}) :
+                 x = [HBase EXCEPT !.requireClientCert = req, !.anchor = anchor, !.clientCert = cc, !.clientMax = cmax]
+           \/ \E pk \in {"Plaintext", "Garbage"}, req \in BOOLEAN :
+                 x = [HBase EXCEPT !.peerKind = pk, !.requireClientCert = req, !.anchor = IF req THEN "RightCA" ELSE "None"]
+           \/ x = [HBase EXCEPT !.tlsRequested = FALSE, !.tlsEnabled = FALSE, !.peerKind = "Plaintext"]
+
 IsCase(x) == FamA(x) \/ FamB(x) \/ FamC(x) \/ FamD(x) \/ FamE(x) \/ FamF(x) \/ FamG(x) \/ FamH(x) \/ FamI(x)
+             \/ FamJ(x)
 
 -----------------------------------------------------------------------------
 (* Abs: the property's policy.  An outcome o = [admitted, clear, ver]:                                       *)
